@@ -676,6 +676,10 @@ pub enum Step {
     /// acknowledge the oldest / newest exchange that awaits something
     AckOldest,
     AckNewest,
+    /// the caller gives up: the future of the oldest / newest unfinished publish is dropped
+    /// (the exchange itself goes on)
+    DropOldest,
+    DropNewest,
 }
 
 #[derive(Clone, Copy, Debug, PartialEq, Eq, Serialize, Deserialize)]
@@ -720,6 +724,7 @@ struct Ex {
     qos: u8,
     pid: u16,
     ph: Ph,
+    dropped: bool,
 }
 
 fn run_c17(case: &C17Case, cut: usize, o: &mut Outcome) -> Option<Failure> {
@@ -757,7 +762,18 @@ fn run_c17(case: &C17Case, cut: usize, o: &mut Outcome) -> Option<Failure> {
                 let Some(pid) = tr.pid(op) else {
                     return Some(Failure { sig: "HARNESS/publish-not-written".into(), msg: format!("{:?}", w.ops[op].res) });
                 };
-                exs.push(Ex { op, qos, pid, ph: Ph::AwaitAck });
+                exs.push(Ex { op, qos, pid, ph: Ph::AwaitAck, dropped: false });
+            }
+            Step::DropOldest | Step::DropNewest => {
+                let idxs: Vec<usize> = (0..exs.len()).filter(|i| exs[*i].ph != Ph::Done && !exs[*i].dropped).collect();
+                if idxs.is_empty() {
+                    continue;
+                }
+                let i = if *st == Step::DropOldest { idxs[0] } else { *idxs.last().unwrap() };
+                w.drop_op(exs[i].op);
+                exs[i].dropped = true;
+                settle(&mut w, &plan, false);
+                o.class("publish-future-dropped");
             }
             Step::AckOldest | Step::AckNewest => {
                 let idxs: Vec<usize> = (0..exs.len()).filter(|i| exs[*i].ph != Ph::Done).collect();
@@ -937,6 +953,9 @@ fn run_c17(case: &C17Case, cut: usize, o: &mut Outcome) -> Option<Failure> {
                 w.reader.feed(rc::encode(&rc::Packet::Pubcomp(rc::Ack { pid, ..Default::default() }), &rc::Form::short()));
             }
             settle(&mut w, &plan, false);
+            if ex.dropped {
+                continue; // nobody waits for it any more
+            }
             if w.ops[ex.op].res != Some(OpRes::Ok) {
                 return Some(Failure {
                     sig: "C17/alive/original-future-not-completed".into(),
@@ -956,7 +975,7 @@ fn run_c17(case: &C17Case, cut: usize, o: &mut Outcome) -> Option<Failure> {
             });
         }
         for ex in &exs {
-            if ex.ph != Ph::Done {
+            if ex.ph != Ph::Done && !ex.dropped {
                 match &w.ops[ex.op].res {
                     Some(OpRes::Err(_)) => {}
                     other => {
@@ -980,7 +999,7 @@ impl Property for C17 {
     fn strategy(tier: Tier) -> BoxedStrategy<C17Case> {
         let s = (
             vec(
-                prop_oneof![3 => Just(Step::Pub1), 4 => Just(Step::Pub2), 3 => Just(Step::AckOldest), 2 => Just(Step::AckNewest)],
+                prop_oneof![6 => Just(Step::Pub1), 8 => Just(Step::Pub2), 6 => Just(Step::AckOldest), 4 => Just(Step::AckNewest), 1 => Just(Step::DropOldest), 1 => Just(Step::DropNewest)],
                 1..tier.pick(10, 20),
             ),
             prop_oneof![
